@@ -1,6 +1,6 @@
 (* Correspondence evaluators for the VM (C05, C07-C12, C14): a case is an environment, a program, an
    initial machine state and a gas limit together with what the implementation did on it. *)
-From EB Require Export Corr.Common Vm.Exec.
+From EB Require Export Corr.Common Vm.Exec Spec.Ops.
 Open Scope list_scope.
 Open Scope Z_scope.
 
@@ -61,6 +61,7 @@ Record obs := {
   o_priced : Z; o_cost_sum : Z;      (* what the implementation asked the cost function *)
   o_reads : list (Z * list Z * list Z * Z);  (* in call order: 0=pre/1=post, contract, key, count *)
   o_mapped_same : bool;              (* executing the mapped bytecode gave the identical result and state *)
+  o_eval : Z;                        (* Vm::eval_ops from the same state: 0 false, 1 true, 2 invalid, 3 error, 4 panic *)
 }.
 
 Record vm_case := {
@@ -149,8 +150,36 @@ Definition c07_spec_fail (c : vm_case) : bool :=
   | IPanic => true
   end.
 
-(* C08/C09/C10/C11/C12: full state and error index; the engines choose the programs *)
-Definition full_mismatch := vm_mismatch.
+(* C08-C12: the observables the specification determines uniquely - success or failure, the index of the
+   failing operation, and on success the whole final state and the gas.  The theorems of these properties
+   show that the model's values are the specified ones, so a difference here is a failure of the
+   specification on a concrete input (error classes are not specified and only count as a mismatch). *)
+Definition eval_code (c : vm_case) : Z :=
+  match eval_ops (N.to_nat (c_fuel c)) (env_of (c_env c)) (c_ops c) (c_limit c) (init_vm c) with
+  | EvFalse => 0 | EvTrue => 1 | EvInvalid => 2 | EvErr _ _ => 3 | EvPanic => 4 | EvFuel => 5
+  end.
+Definition sem_fail (c : vm_case) : bool :=
+  let o := c_obs c in
+  match run_model c, o_res o with
+  | Ok (v, g, tr), IOk g' => negb ((g =? g') && state_eqb v o && (o_eval o =? eval_code c))
+  | Err (p, _, _), IErr p' _ => negb ((p =? p') && (o_eval o =? 3))
+  | _, _ => true
+  end.
+
+(* C08 additionally: the declarative op specification evaluated directly on single-operation cases *)
+Definition c08_spec_fail (c : vm_case) : bool :=
+  let o := c_obs c in
+  match c_ops c with
+  | [op] =>
+    if is_data_op op && (c_pc c =? 0) then
+      match op_spec op (rev (c_stack c)) (c_memory c) (match c_parent c with Some m => [m] | None => [] end), o_res o with
+      | Some (s', m'), IOk _ => negb (zlist_eqb (rev s') (o_stack o) && zlist_eqb m' (o_memory o) && (o_pc o =? 1))
+      | None, IErr p _ => negb (p =? 0)
+      | _, _ => true
+      end
+    else sem_fail c
+  | _ => sem_fail c
+  end.
 
 (* C14: list execution vs mapped execution of the implementation *)
 Definition c14_spec_fail (c : vm_case) : bool := negb (o_mapped_same (c_obs c)).
@@ -161,6 +190,8 @@ Definition c05_spec_failures := collect c05_spec_fail.
 Definition c07_mismatches := collect c07_mismatch.
 Definition c07_spec_failures := collect c07_spec_fail.
 Definition c14_spec_failures := collect c14_spec_fail.
+Definition sem_failures := collect sem_fail.
+Definition c08_spec_failures := collect c08_spec_fail.
 
 (* debugging aid used by --replay: the model's result in observable form *)
 Definition show_model (c : vm_case) :=
